@@ -16,41 +16,53 @@ From PG Require Import Lib.Str Model.TALProg.
 
 (* ---- the part of simpleTALES.Context that the scope discipline is about:
         which names are bound where (values live in D) ---- *)
+Record scopes : Type := mkSc {
+  s_locals : list str;              (* keys of context.locals *)
+  s_lstack : list (list str);       (* context.localStack *)
+  s_rmap : list str;                (* keys of context.repeatMap *)
+  s_rstack : list (list str)        (* context.repeatStack *)
+}.
 Record ctx : Type := mkCtx {
-  c_locals : list str;              (* keys of context.locals *)
-  c_lstack : list (list str);       (* context.localStack *)
-  c_rmap : list str;                (* keys of context.repeatMap *)
-  c_rstack : list (list str);       (* context.repeatStack *)
+  c_sc : scopes;
   c_globals : list str              (* keys of context.globals *)
 }.
 
 Definition add_name (n : str) (l : list str) : list str := if mem_str n l then l else n :: l.
 
-Definition push_locals (c : ctx) : ctx :=
-  mkCtx (c_locals c) (c_locals c :: c_lstack c) (c_rmap c) (c_rstack c) (c_globals c).
-Definition set_local (n : str) (c : ctx) : ctx :=
-  mkCtx (add_name n (c_locals c)) (c_lstack c) (c_rmap c) (c_rstack c) (c_globals c).
+Definition sc_push (s : scopes) : scopes := mkSc (s_locals s) (s_locals s :: s_lstack s) (s_rmap s) (s_rstack s).
+Definition sc_set (n : str) (s : scopes) : scopes := mkSc (add_name n (s_locals s)) (s_lstack s) (s_rmap s) (s_rstack s).
 (* popLocals: list.pop() raises IndexError on an empty stack *)
-Definition pop_locals (c : ctx) : option ctx :=
-  match c_lstack c with
+Definition sc_pop (s : scopes) : option scopes :=
+  match s_lstack s with
   | [] => None
-  | l :: r => Some (mkCtx l r (c_rmap c) (c_rstack c) (c_globals c))
+  | l :: r => Some (mkSc l r (s_rmap s) (s_rstack s))
   end.
-Definition add_global (n : str) (c : ctx) : ctx :=
-  mkCtx (c_locals c) (c_lstack c) (c_rmap c) (c_rstack c) (add_name n (c_globals c)).
+(* Context.addRepeat: push the repeat map, bind the name in a copy; then pushLocals, setLocal *)
+Definition sc_add_repeat (n : str) (s : scopes) : scopes :=
+  sc_set n (sc_push (mkSc (s_locals s) (s_lstack s) (add_name n (s_rmap s)) (s_rmap s :: s_rstack s))).
+(* Context.removeRepeat *)
+Definition sc_remove_repeat (s : scopes) : option scopes :=
+  match s_rstack s with
+  | [] => None
+  | m :: r => Some (mkSc (s_locals s) (s_lstack s) m r)
+  end.
+
+Definition push_locals (c : ctx) : ctx := mkCtx (sc_push (c_sc c)) (c_globals c).
+Definition set_local (n : str) (c : ctx) : ctx := mkCtx (sc_set n (c_sc c)) (c_globals c).
+Definition pop_locals (c : ctx) : option ctx :=
+  match sc_pop (c_sc c) with Some s => Some (mkCtx s (c_globals c)) | None => None end.
+Definition add_global (n : str) (c : ctx) : ctx := mkCtx (c_sc c) (add_name n (c_globals c)).
 
 Definition REPEAT : str := [114; 101; 112; 101; 97; 116]%N.   (* "repeat" *)
 Definition ATTRS : str := [97; 116; 116; 114; 115]%N.         (* "attrs" *)
 
-(* Context.addRepeat *)
+(* Context.addRepeat / removeRepeat also store the repeat map under globals['repeat'] *)
 Definition add_repeat (n : str) (c : ctx) : ctx :=
-  let c1 := mkCtx (c_locals c) (c_lstack c) (add_name n (c_rmap c)) (c_rmap c :: c_rstack c) (c_globals c) in
-  set_local n (push_locals (add_global REPEAT c1)).
-(* Context.removeRepeat *)
+  mkCtx (sc_add_repeat n (c_sc c)) (add_name REPEAT (c_globals c)).
 Definition remove_repeat (c : ctx) : option ctx :=
-  match c_rstack c with
-  | [] => None
-  | m :: r => Some (add_global REPEAT (mkCtx (c_locals c) (c_lstack c) m r (c_globals c)))
+  match sc_remove_repeat (c_sc c) with
+  | Some s => Some (mkCtx s (add_name REPEAT (c_globals c)))
+  | None => None
   end.
 (* Context.evaluate(expr, originalAtts) stores originalAtts under globals['attrs'] *)
 Definition touch_attrs (c : ctx) : ctx := add_global ATTRS c.
